@@ -196,7 +196,7 @@ func replayScript(v *Violation) string {
 		case "run":
 			q := make([]string, len(st.Args))
 			for i, a := range st.Args {
-				q[i] = shQuote(a)
+				q[i] = strings.ReplaceAll(shQuote(a), "@ROOT@", "$tmp/root")
 			}
 			env := ""
 			for _, e := range st.Env {
